@@ -159,7 +159,7 @@ fn build_stream(cfg: &ThCfg, ops: &[ThOp]) -> Built {
     let mut players: BTreeMap<i32, (i32, i32)> = BTreeMap::new();
     let mut inputs: BTreeMap<i32, [i32; 10]> = BTreeMap::new();
     let mut finished = false;
-    let mut player_msg = |cid: i32, tick: &mut i64, implicit: &mut Option<i32>| {
+    let player_msg = |cid: i32, tick: &mut i64, implicit: &mut Option<i32>| {
         if let Some(ic) = *implicit {
             if cid <= ic {
                 *tick += 1;
